@@ -445,3 +445,4 @@ def run(chk):
     check_lexer(chk, F, emitted)
     from . import decoder
     decoder.check_decoder(chk, F)
+    chk.guard("R04.5", "decoder-canonical", decoder.check_decoder_canonical, chk, F)
